@@ -685,7 +685,7 @@ func runHarness(p *Program, pkg *ssa.Package, src string) (json.RawMessage, stri
 	ovFile := filepath.Join(tmp, "overlay.json")
 	os.WriteFile(ovFile, ovData, 0o644)
 	outFile := filepath.Join(tmp, "out.json")
-	args := []string{"test", "-overlay", ovFile, "-vet=off", "-count=1", "-timeout", "60s", "-run", "^TestGovcReplay$", "."}
+	args := []string{"test", "-overlay", ovFile, "-vet=off", "-count=1", "-timeout", "150s", "-run", "^TestGovcReplay$", "."}
 	cmd := exec.Command("go", args...)
 	cmd.Dir = dir
 	cmd.Env = append(os.Environ(), "GOFLAGS=-mod=mod", "GOPROXY=off", "GOSUMDB=off", "GOTOOLCHAIN=local", "GOVC_REPLAY_OUT="+outFile, "GOCACHE="+filepath.Join(tmp, "gocache-unused"))
@@ -699,7 +699,7 @@ func runHarness(p *Program, pkg *ssa.Package, src string) (json.RawMessage, stri
 	go func() { out, rerr = cmd.CombinedOutput(); close(done) }()
 	select {
 	case <-done:
-	case <-time.After(120 * time.Second):
+	case <-time.After(300 * time.Second):
 		cmd.Process.Kill()
 		return nil, "", "", fmt.Errorf("replay timed out")
 	}
